@@ -271,6 +271,8 @@ class World:
             r = w.connect_plan.pop(0) if w.connect_plan else None
             if isinstance(r, BaseException):
                 raise r
+            if callable(r) and not isinstance(r, nfc.clf.device.Device):
+                r = r(path)             # a factory: initialises a real driver (under the lock, as device.connect does)
             return r
         self._set(nfc.clf.device, 'connect', connect)
 
@@ -532,3 +534,102 @@ def excl_check(schedule, owner=None, busy=False, dev=False):
                 return idx, 'self.device written without the lock / during a driver call'
             dev = e[1]
     return None
+
+
+# ---------------------------------------------------------------- real drivers over fake transports
+class RealScript:
+    """RecDevice 'script' that forwards every driver method to a real nfcpy driver object"""
+
+    def __init__(self, real):
+        self.real = real
+
+    def result(self, method, args):
+        return getattr(self.real, method)(*args)
+
+
+def _driver_site():
+    """outermost function of a driver module (src/nfc/clf/<driver>.py) on the current thread's stack:
+    identifies who is talking to the transport, e.g. acr122.py:_led_timeout for a timer thread"""
+    f = sys._getframe(2)
+    site = None
+    while f is not None:
+        fn = f.f_code.co_filename.replace('\\', '/')
+        if '/nfc/clf/' in fn and not fn.endswith('/__init__.py'):
+            site = '%s:%s' % (fn.rsplit('/', 1)[1], f.f_code.co_name)
+        f = f.f_back
+    return site or '?'
+
+
+class GuardedTransport:
+    """wraps a fake host link (sim/chipsets.py); every read/write must be made by the thread that currently
+    holds the frontend lock - the monitor of C15 one level below the driver methods, where a driver's own
+    threads/timers become visible"""
+
+    def __init__(self, sim, rec, clf_ref, driver):
+        self.__dict__.update(_sim=sim, _rec=rec, _clf_ref=clf_ref, _driver=driver, io_count=0, armed=True)
+
+    def _check(self, what, frame):
+        self.__dict__['io_count'] += 1
+        if not self.armed:
+            return
+        clf = self._clf_ref()
+        lock = clf.__dict__.get('lock') if clf is not None else None
+        if not (isinstance(lock, RecLock) and lock.held_by_me()):
+            site = _driver_site()
+            t = threading.current_thread()
+            self._rec.problem('unlocked-transport-io:%s:%s' % (self._driver, site),
+                              'driver %s: transport %s from %s by a thread that does not hold the frontend lock'
+                              % (self._driver, what, site),
+                              {'driver': self._driver, 'io': what, 'site': site, 'thread_class': type(t).__name__,
+                               'lock_held_by_another_thread': bool(lock is not None and lock.locked()),
+                               'frame': bytes(frame or b'').hex()[:80]})
+
+    def write(self, frame):
+        self._check('write', frame)
+        return self._sim.write(frame)
+
+    def read(self, timeout=0):
+        self._check('read', b'')
+        return self._sim.read(timeout)
+
+    def __getattr__(self, name):
+        return getattr(self._sim, name)
+
+    def __setattr__(self, name, value):
+        if name in self.__dict__:
+            self.__dict__[name] = value
+        else:
+            setattr(self._sim, name, value)
+
+
+class ThreadWatch:
+    """while installed: threads started by anybody are recorded, timers fire after 2% of their interval (a
+    timer of the driver must show itself within the scenario instead of half a second later)"""
+
+    def __init__(self, scale=0.02):
+        self.scale = scale
+        self.started = []
+
+    def __enter__(self):
+        watch = self
+        self._start = threading.Thread.start
+        self._timer_init = threading.Timer.__init__
+
+        def start(thread):
+            watch.started.append(thread)
+            return watch._start(thread)
+
+        def timer_init(timer, interval, function, args=None, kwargs=None):
+            watch._timer_init(timer, interval * watch.scale, function, args, kwargs)
+        threading.Thread.start = start
+        threading.Timer.__init__ = timer_init
+        return self
+
+    def __exit__(self, *a):
+        threading.Thread.start = self._start
+        threading.Timer.__init__ = self._timer_init
+
+    def join(self, timeout=2.0):
+        for t in list(self.started):
+            t.join(timeout)
+        return [t for t in self.started if t.is_alive()]
